@@ -56,6 +56,8 @@ class Ctx:
             self.samples.append(obj)
 
     def mismatch(self, what, case, model_out=None, code_out=None):
+        if getattr(self, "in_search", False):
+            return
         self.mismatches.append({"what": what, "case": case, "model": model_out, "code": code_out})
 
     def violation(self, what, case, known_id=None):
@@ -209,6 +211,9 @@ def main():
     known_hit = [v for v in ctx.violations if v["known_id"] and v["known_id"] in known_ids]
     if broken and not real_viol and hasattr(P, "search") and not a.replay:
         try:
+            # the search is oracle-only: the model is not consulted and model/code differences are not re-reported
+            ctx.model = vlib.NullModel()
+            ctx.in_search = True
             P.search(ctx, broken)
         except Exception:
             traceback.print_exc()
